@@ -375,6 +375,8 @@ def check_graph(ctx, c):
                 raise Violation("compute_dstatedt on grid vs graph: entry %d: %r vs %r" % (t, ka[t], kb[t]), key="graph:kinetics")
 
 
+RULE = RULE + " " + ('Since seeded round 4 engine_neighbours also runs, from every source cell, one tau-leap step (6400 molecules: non-neighbours must stay empty, neighbours get Poisson(multiplicity x 100) within 7 sigma, total conserved) and 120 Gillespie events (each must move one molecule between two cells that the reference relation calls neighbours); geometry re-checks the neighbour query / pair test on the same object after set_boundary_conditions to two other settings.')
+
 FACETS = [
     Facet("geometry", check_geometry, enumerate=enum_grids, shards=(16, 16)),
     Facet("engine_neighbours", check_engine, enumerate=enum_grids, shards=(16, 16), setup=sim.setup_plain),
